@@ -2,7 +2,7 @@
    case: (case k ("name" <checked Fun program> nargs) RES) where RES is (asm-ok RUN ...) with
    RUN = ((args) "stdout" OUTCOME), OUTCOME = (status n) or (signal n) or timeout; or ((asm-error "msg")) *)
 From Coq Require Import List ZArith NArith String Bool.
-From SCC Require Import Base.Sexp Lang.SynUtil Lang.FunSyn Sem.AxSem Sem.CoreSem Sem.FunSem Model.Fun2Core Model.RunBase Model.RunFun2Core.
+From SCC Require Import Base.Sexp Lang.SynUtil Lang.FunSyn Sem.AxSem Sem.CoreSem Sem.FunSem Sem.LabelGuard Model.Fun2Core Model.RunBase Model.RunFun2Core.
 Import ListNotations.
 Open Scope list_scope.
 Open Scope string_scope.
@@ -45,6 +45,21 @@ Definition c01_one (p : fcprog) (r : list Z * string * native_outcome) : option 
   | _ => (None, false)
   end.
 
+(* known finding C14 label-collision-name-digits seen from the source program: a declared type name with
+   `_<digit>` AND a constructor / destructor name with `_<digit>` or a leading digit make the label
+   texts <Type>_<k>[_<Xtor>] ambiguous; the assembler then reports a symbol defined twice *)
+Fixpoint contains (sub s : string) : bool :=
+  String.prefix sub s || match s with EmptyString => false | String _ r => contains sub r end.
+Fixpoint one_line (s : string) : string :=
+  match s with
+  | EmptyString => EmptyString
+  | String c r => String (if Nat.eqb (Ascii.nat_of_ascii c) 10 then Ascii.ascii_of_nat 32 else c) (one_line r)
+  end.
+Definition fun_name_digits (p : fcprog) : bool :=
+  existsb has_usd (map fdaname (fcpdata p) ++ map fcoaname (fcpcodata p))
+  && existsb (fun x => has_usd x || hd_dig x)
+       (flat_map (fun d => map fctname (fdactors d)) (fcpdata p) ++ flat_map (fun c => map fdtname (fcodtors c)) (fcpcodata p)).
+
 Definition c01_case (i r : sexp) : verdict :=
   match i with
   | L [Q name; p; _] =>
@@ -52,7 +67,10 @@ Definition c01_case (i r : sexp) : verdict :=
       | None => VBad "input unreadable"
       | Some p =>
           match r with
-          | L [L [A "asm-error"; Q e]] => VViol ("class=assembler-rejects " ++ name ++ ": " ++ trunc 600 e)
+          | L [L [A "asm-error"; Q e]] =>
+              if contains "already defined" e && fun_name_digits p
+              then VViol ("class=label-collision-name-digits-e2e " ++ name ++ ": " ++ one_line (trunc 600 e))
+              else VViol ("class=assembler-rejects " ++ name ++ ": " ++ one_line (trunc 600 e))
           | L (A "asm-ok" :: runs) =>
               match omap g_native runs with
               | None => VBad "native runs unreadable"
